@@ -307,6 +307,11 @@ func (s *Sim) step(a Action) {
 		s.mstep("krep", nil, func() { s.doKRep(a.KRep) })
 	case "armburst":
 		s.armed = a.KRep
+	case "armstop":
+		s.armedStop = a.N
+		if s.armedStop < 1 {
+			s.armedStop = 1
+		}
 	case "armans":
 		// an SMF's answer that reaches the socket while the event loop is in the middle
 		// of a turn (waiting for the N-th data-plane reply from now)
